@@ -182,6 +182,9 @@ pub(crate) fn judge(sim: &Sim, outcome: &RunOutcome) -> Vec<(String, String)> {
         }
     }
     bad.extend(tip_check(sim));
+    if sim.queue.is_empty() && sim.held.is_empty() {
+        bad.extend(crate::verif::oracle::outstanding_requests(sim));
+    }
     bad
 }
 
